@@ -386,7 +386,7 @@ fn new_pipeline(c: &HCase) -> Pipeline {
     let meta: Arc<dyn MetadataClient> = if c.object_store_backend {
         Arc::new(ObjectStoreMetadataClient::new(
             store.clone(),
-            ObjectStoreMetadataConfig { bucket: "b".into(), metadata_prefix: "metadata/".into(), enable_cache: false, allow_unsafe_overwrite: false },
+            ObjectStoreMetadataConfig { bucket: "b".into(), metadata_prefix: "metadata/".into(), enable_cache: true, allow_unsafe_overwrite: false },
         ))
     } else {
         Arc::new(LocalMetadataClient::new())
